@@ -7,6 +7,7 @@ import CoapVerif.Lemmas.MsgHold
 import CoapVerif.Lemmas.MsgLayerW
 import CoapVerif.Lemmas.MsgLayerWRefuse
 import CoapVerif.Lemmas.ObserveWait
+import CoapVerif.Lemmas.ObserveWaitInv
 /-
 C06 — the retransmission queue: every pending message is (re)transmitted on the RFC 7252 §4.2 schedule and
 ends in exactly one outcome.
@@ -1635,5 +1636,91 @@ hypotheses hold and the wait returned is 2000 -/
 example : let st := (Coap.Observe.run (init [mkRes 0 true false 0] 30000) [.reg 0 0 1 0 true 1, .chg 0, .adv 500]).1
     st.sendq.map (·.due) = [3500] ∧ st.now = 1500 ∧ waitOf st 1 = 2000 ∧
     st.sendq.Pairwise (fun a b => a.due ≤ b.due) ∧ (∀ q ∈ st.sendq, st.now < q.due) := by decide
+
+/-! ### (12') the two queue invariants of `Coap.Observe` runs, proved: the hypotheses of the `_partial` theorems are gone
+
+`Lemmas/ObserveWaitInv.lean`: every function of C11's server model either leaves the send queue alone, removes nodes (ACK, RST,
+cancel by token, session loss, give-up), or inserts in deadline order a node armed strictly after `now` (`coap_wait_ack` of a
+Confirmable notification: `now + 2000`; `coap_retransmit`: `now + 2000·2^(cnt+1)`); the due loop `retransmitDue` — fuel
+`length + 1` only — pops each due node once and never runs dry (`retransmitDue_spec`: the number of due nodes never grows). -/
+open Coap.Observe Coap.ObsWait in
+/-- **obs_queue_sorted_nothing_due** (every run of the Observe model — every resource list, idle timeout, event list): the send
+queue is in deadline order and nothing in it is due (every event that moves the clock or queues a notification ends with the
+I/O step); `obs_queue_sorted_step`: deadline order is kept by every event from EVERY state. -/
+theorem obs_queue_sorted_nothing_due (res : List Res) (stTicks : Nat) (evs : List Event) :
+    let st := (Coap.Observe.run (init res stTicks) evs).1
+    st.sendq.Pairwise (fun a b => a.due ≤ b.due) ∧ ∀ q ∈ st.sendq, st.now < q.due :=
+  let h := run_qinv evs _ (qinv_init res stTicks)
+  ⟨h.sorted, h.fresh⟩
+
+open Coap.Observe Coap.ObsWait in
+theorem obs_queue_sorted_step (st : State) (e : Event) (h : st.sendq.Pairwise (fun a b => a.due ≤ b.due)) :
+    (Coap.Observe.step st e).1.sendq.Pairwise (fun a b => a.due ≤ b.due) :=
+  step_sorted st e h
+
+open Coap.Observe Coap.ObsWait in
+/-- **obs_io_nothing_due** (every state whose queue is in deadline order, whatever is due, however late the call): after
+`coap_io_prepare_io_lkd` the queue is in deadline order and NOTHING in it is due — `retransmitDue`'s fuel `length + 1` is enough
+for every due node, the ones `coap_check_notify` queued in this very call included. -/
+theorem obs_io_nothing_due (st : State) (h : st.sendq.Pairwise (fun a b => a.due ≤ b.due)) :
+    (io st).1.sendq.Pairwise (fun a b => a.due ≤ b.due) ∧ (io st).1.now = st.now ∧
+    ∀ q ∈ (io st).1.sendq, (io st).1.now < q.due :=
+  ⟨((io_spec st).2 h).1, (io_spec st).1.now, ((io_spec st).2 h).2⟩
+
+open Coap.Observe Coap.ObsWait in
+/-- **obs_io_wait_le_every_deadline_sorted** (every state whose queue is in deadline order — nothing else assumed: whatever
+is due, however late the call): `obs_io_wait_le_every_deadline_partial` with its "nothing due" hypothesis discharged and the
+"sorted" one moved from the state the call LEAVES to the state it STARTS from. -/
+theorem obs_io_wait_le_every_deadline_sorted (st : State) (ncli : Nat)
+    (hsorted : st.sendq.Pairwise (fun a b => a.due ≤ b.due)) :
+    (ioWait st ncli).2.2 = waitOf (io st).1 ncli ∧
+    ∀ q ∈ (io st).1.sendq, 0 < tickWait (io st).1 ncli ∧ waitOf (io st).1 ncli ≤ q.due - (io st).1.now ∧
+      (tickWait (io st).1 ncli < 4294967296 → waitOf (io st).1 ncli = tickWait (io st).1 ncli) :=
+  let hio := obs_io_nothing_due st hsorted
+  obs_io_wait_le_every_deadline_partial st ncli hio.1 hio.2.2
+
+open Coap.Observe Coap.ObsWait in
+/-- **obs_io_wait_le_every_deadline** (FULL — `obs_io_wait_le_every_deadline_partial` without its two hypotheses): after EVERY
+run of the Observe model (every resource list, idle timeout, event list), let any time `ms` pass and call
+`coap_io_prepare_io_lkd` (this is the event `adv ms`; `ms = 0`: the event `io`): the value returned is computed from the state
+the call LEAVES; while anything is queued — a notification transmitted from inside this very call included — the wait is
+positive ("something is pending" is never reported as 0), never exceeds the time to ANY queued deadline, and the `unsigned int`
+milliseconds equal the tick value below 2^32. -/
+theorem obs_io_wait_le_every_deadline (res : List Res) (stTicks : Nat) (evs : List Event) (ms ncli : Nat) :
+    let st0 := (Coap.Observe.run (init res stTicks) evs).1
+    let st : State := { st0 with now := st0.now + ms }
+    (Coap.Observe.step st0 (.adv ms)).1 = (io st).1 ∧
+    (ioWait st ncli).2.2 = waitOf (io st).1 ncli ∧
+    ∀ q ∈ (io st).1.sendq, 0 < tickWait (io st).1 ncli ∧ waitOf (io st).1 ncli ≤ q.due - (io st).1.now ∧
+      (tickWait (io st).1 ncli < 4294967296 → waitOf (io st).1 ncli = tickWait (io st).1 ncli) := by
+  intro st0 st
+  have hs : st.sendq.Pairwise (fun a b => a.due ≤ b.due) := (run_qinv evs _ (qinv_init res stTicks)).sorted
+  exact ⟨rfl, obs_io_wait_le_every_deadline_sorted st ncli hs⟩
+
+open Coap.Observe Coap.ObsWait in
+/-- **obs_wait_le_every_deadline** (FULL — `obs_wait_le_every_deadline_partial` without hypotheses): the state ANY I/O step
+leaves at the end of ANY run satisfies all three hypotheses of the partial theorem (deadline order, nothing due, no idle
+session past its timeout): the wait in ticks is positive, neither it nor the `unsigned int` milliseconds exceed the time to
+ANY queued deadline, and they are equal below 2^32. -/
+theorem obs_wait_le_every_deadline (res : List Res) (stTicks : Nat) (evs : List Event) (ms ncli : Nat) :
+    let st0 := (Coap.Observe.run (init res stTicks) evs).1
+    let st := (io { st0 with now := st0.now + ms }).1
+    ∀ q ∈ st.sendq, 0 < tickWait st ncli ∧ tickWait st ncli ≤ q.due - st.now ∧
+      waitOf st ncli ≤ q.due - st.now ∧ (tickWait st ncli < 4294967296 → waitOf st ncli = tickWait st ncli) := by
+  intro st0 st
+  have hs : ({ st0 with now := st0.now + ms } : State).sendq.Pairwise (fun a b => a.due ≤ b.due) :=
+    (run_qinv evs _ (qinv_init res stTicks)).sorted
+  have hio := obs_io_nothing_due _ hs
+  exact obs_wait_le_every_deadline_partial st ncli hio.1 hio.2.2 (io_noExpired _)
+
+open Coap.Observe in
+/-- non-vacuity / reading: two NOTIFY_CON resources, two observers; changes; the I/O step at 1500 queues two notifications
+(deadline 3500); at 3500 both are due and retransmitted from inside the call (re-armed for 3500 + 4000 = 7500; the notification for
+the later change is held back by NSTART): the queue the call leaves is [7500, 7500] (deadline order, nothing due), the wait 4000 -/
+example : let evs : List Event := [.reg 0 0 1 0 true 1, .reg 1 1 2 0 true 1, .chg 0, .chg 1, .adv 500, .chg 0]
+    let st0 := (Coap.Observe.run (init [mkRes 0 true false 0, mkRes 1 true false 0] 30000) evs).1
+    st0.sendq.map (·.due) = [3500, 3500] ∧ st0.now = 1500 ∧
+    (io { st0 with now := st0.now + 2000 }).1.sendq.map (·.due) = [7500, 7500] ∧
+    waitOf (io { st0 with now := st0.now + 2000 }).1 2 = 4000 := by decide
 
 end Coap.C06
